@@ -392,7 +392,7 @@ class ContractMixin(CallMixin):
                         if result is None and self.mentions_result(a):
                             if rty is None:
                                 raise Unsupported(f"contract of {contract.qualname} needs returns(...)")
-                            result = self.fresh_of(st, rty, "res_" + contract.qualname.split(".")[-1])
+                            result = self.result_value(st, contract, rty, args, kw)
                         envr = dict(d.env)
                         if result is not None:
                             envr["result"] = result
@@ -400,7 +400,7 @@ class ContractMixin(CallMixin):
                         st.pc.append(c)
                 if result is None:
                     if rty is not None and not isinstance(rty, TNone):
-                        result = self.fresh_of(st, rty, "res_" + contract.qualname.split(".")[-1])
+                        result = self.result_value(st, contract, rty, args, kw)
                     else:
                         result = VNone()
                 for d in deferred:
@@ -432,6 +432,48 @@ class ContractMixin(CallMixin):
             st.ghost["__multi__"] = multi
             st.frames.pop()
             st.ghost["__deferred__"] = saved_def
+
+    def result_value(self, st, contract, rty, args, kw):
+        """Fresh result of a contract call. For contracts marked pure=True the result is a function of
+        the arguments and of the heap version, so repeated calls in one state agree."""
+        base = "res_" + contract.qualname.split(".")[-1]
+        if not contract.flags.get("pure"):
+            return self.fresh_of(st, rty, base)
+        terms, tag = [], []
+        for a in list(args) + [kw[k] for k in sorted(kw)]:
+            a = self.force(st, a)
+            if isinstance(a, VRef):
+                c = self.canon(st, a)
+                tag.append(f"{c.root}{''.join(str(x) for _, x in c.path if isinstance(x, str))}")
+                for _, x in c.path:
+                    if isinstance(x, V):
+                        try:
+                            terms.append(self.lower(x, self.type_of(x)))
+                        except Unsupported:
+                            return self.fresh_of(st, rty, base)
+                continue
+            try:
+                for t in self.flat_scalar_terms(st, a):
+                    terms.append(t)
+            except Unsupported:
+                return self.fresh_of(st, rty, base)
+        name = f"pure:{contract.qualname}@{st.ghost.get('__epoch__', 0)}[{'|'.join(tag)}]"
+        v = self.mk_abstract(rty, name, tuple(terms))
+        if isinstance(v, H):
+            return self.alloc(st, v)
+        return v
+
+    def flat_scalar_terms(self, st, v):
+        if isinstance(v, VNone):
+            return []
+        if isinstance(v, (VTuple, VRec)):
+            out = []
+            for i in v.items:
+                out += self.flat_scalar_terms(st, self.force(st, i))
+            return out
+        if isinstance(v, (VInt, VReal, VBool, VStr, VOpaque)):
+            return [v.t]
+        raise Unsupported("non-scalar argument")
 
     def mentions_result(self, node):
         return any(isinstance(n, ast.Name) and n.id == "result" for n in ast.walk(node))
